@@ -155,7 +155,7 @@ class BoundedStream:
 
             self._bytes_remaining = content_length - len(self._buffer)
 
-        self._pos = len(self._buffer)
+        self._pos = 0
 
         if first_event and self._bytes_remaining:
             # NOTE(kgriffs): Override if the event says there's no more data
@@ -398,8 +398,8 @@ class BoundedStream:
                     #   expecting. This *should* never happen, but better
                     #   safe than sorry.
                     chunks.append(next_chunk[: self._bytes_remaining])
-                    self._bytes_remaining = 0
                     num_bytes_available += self._bytes_remaining
+                    self._bytes_remaining = 0
 
             # NOTE(kgriffs): This also handles the case of receiving
             #   the event: {'type': 'http.disconnect'}
